@@ -61,7 +61,32 @@ class C08(Prop):
             modulo_ok = fn.name == "modulo" and keys_with_list == ["(str, list)"]  # documented string-format overload
             g.append(Ground(f"C08/falls-through-to-vectorise[{k}]", ok, f"{fn.name}: expected the default `{pat}`", witness=dict(element=k, function=fn.name), native=False))
             g.append(Ground(f"C08/no-list-overload[{k}]", not keys_with_list or modulo_ok, f"overload keys naming a list: {keys_with_list}", witness=dict(element=k, function=fn.name, keys=keys_with_list), native=False))
+            # ... and nothing in front of the table may answer for lists: a statement that can return before the table lookup
+            # must be guarded by a test of the argument kinds (ts) against non-list kinds only
+            early = []
+            for st in fn.body:
+                if isinstance(st, (ast.If, ast.For, ast.While, ast.Try, ast.With, ast.Match)) and any(isinstance(x, ast.Return) for x in ast.walk(st)):
+                    test = ast.unparse(st.test) if isinstance(st, ast.If) else type(st).__name__
+                    if not (isinstance(st, ast.If) and re.match(r"^ts(\[\d\])? (==|is) ", test) and not re.search(r"\blist\b|LazyList|isinstance|\btype\(|\band\b|\bor\b", test)):
+                        early.append(test)
+            g.append(Ground(f"C08/no-early-return-for-lists[{k}]", not early, f"{fn.name} can return before its overload table under: {early}", witness=dict(element=k, function=fn.name, tests=early), native=False))
             self.covered.append(k)
+        # the classifier vectorise() dispatches on (helpers.primitive_type; the vectorise contracts take its answers as given):
+        # every kind of Vyxal value is a scalar or a list, exact irrational / symbolic numbers included
+        import sympy
+        import vyxal.helpers as H
+        from vyxal.LazyList import LazyList
+
+        kinds = [("int", 5, "scalar"), ("negative int", -3, "scalar"), ("sympy Integer", sympy.Integer(7), "scalar"), ("Rational", sympy.Rational(1, 3), "scalar"), ("str", "ab", "scalar"), ("empty str", "", "scalar"),
+                 ("exact square root", sympy.sqrt(2), "scalar"), ("pi", sympy.pi, "scalar"), ("sum with a root", 1 + sympy.sqrt(5), "scalar"), ("imaginary unit", sympy.I, "scalar"), ("symbolic expression", sympy.Symbol("x") + 1, "scalar"),
+                 ("list", [1, 2], "list"), ("empty list", [], "list"), ("lazy list", LazyList(iter([1])), "list")]
+        for nm, v, want in kinds:
+            try:
+                got = H.primitive_type(v)
+                got = "list" if got is list else ("scalar" if got == H.SCALAR_TYPE else repr(got))
+            except BaseException as e:  # noqa
+                got = f"raised {type(e).__name__}"
+            g.append(Ground(f"C08/primitive_type-classifies[{nm}]", got == want, f"primitive_type({v!r}) is {got}, expected {want}", witness=dict(value=repr(v), got=got, expected=want)))
         g.append(Ground("C08/vectorising-elements-found", len(self.covered) >= 60, f"{len(self.covered)} covered, not covered: {self.not_covered}"))
         return g
 
@@ -74,7 +99,7 @@ class C08(Prop):
         self.ground(W, tier, seed)
         rnd = random.Random(seed)
         scalars = [3, 0, -2, 7, "ab", "", 5]
-        lists = [[1, 2, 3], [], [4], [[1, 2], [3]], ["", "a"], [[], [1]], [0, 5, [6, [7]]], ["x", 2]]
+        lists = [[1, 2, 3], [], [4], [[1, 2], [3]], ["", "a"], [[], [1]], [0, 5, [6, [7]]], ["x", 2], [4, -2], [-1, 4, -3]]
         n = 0
 
         def run(k, args):
@@ -131,7 +156,7 @@ class C08(Prop):
 
     def bounded(self, W, tier, seed):
         w, n = self.elementwise_search(W, tier, seed)
-        return [dict(name="C08/bounded-elementwise", what="every covered vectorising element applied to flat, nested, empty and falsy-item lists in the shapes list, list-scalar, scalar-list, list-list (equal and unequal lengths), eagerly and lazily, compared with the item-wise application (zero fill)", bound="8 lists x 3 scalars, depth <= 3, length <= 3", evaluations=n, label="bounded", failures=[w] if w else [])]
+        return [dict(name="C08/bounded-elementwise", what="every covered vectorising element applied to flat, nested, empty and falsy-item lists in the shapes list, list-scalar, scalar-list, list-list (equal and unequal lengths), eagerly and lazily, compared with the item-wise application (zero fill)", bound="10 lists (negative items included) x 3 scalars, depth <= 3, length <= 3", evaluations=n, label="bounded", failures=[w] if w else [])]
 
     def replay(self, W, report, ob):
         return self.elementwise_search(W, "quick", 0)[0]
